@@ -407,6 +407,15 @@ def run_check(pid, tier, replay=None):
         for sc, vs in sorted(by_sc.items()):
             rp = C.write_replay(pid, sc, replay_obj(pid, sc, events, vs))
             violations.append(("%s in scenario %s at event %s" % (",".join(sorted({v["p"] for v in vs})), sc, min(v["seq"] for v in vs)), rp))
+        blank_ctx = None
+        if pid == "C07":
+            # "... and therefore Blank.SetSource": the Blank histories of Wrap.tla with the monitor gone, under a watchdog
+            from . import wrapcheck
+            bad, n_sel, wstates = wrapcheck.blank_context_cases(vh, scratch, seed, quick)
+            blank_ctx = {"histories_executed": n_sel, "wrap_states": wstates, "not_returned_after_context_end": len(bad)}
+            for detail, case in bad[:10]:
+                rp = C.write_replay(pid, case["id"], {"property": pid, "kind": "wrap", "case": case, "mismatches": [{"kind": "ctx", "detail": detail}]})
+                violations.append(("Blank history %s: %s" % (case["id"], detail[:200]), rp))
         # 5. code -> spec (b): strict conformance of gated executions with Dials.tla
         by = {}
         for e in events:
@@ -433,7 +442,7 @@ def run_check(pid, tier, replay=None):
                     "; distinct = different (scenario, executed schedule) pairs",
             "model": {"config": mc.consts_for(pid, tier), "distinct_states": mcres.distinct, "generated_states": mcres.generated,
                       "depth": mcres.depth, "invariants": mc.INVARIANTS, "action_properties": mc.ACTION_PROPS, "wall_s": round(mcres.wall, 1)},
-            "toggle_selftest": selftest,
+            "toggle_selftest": selftest, "blank_set_source_context": blank_ctx,
             "spec_behaviours_replayed": len(behaviours), "plan_steps_not_enabled_in_code": plan_skips,
             "observer": {"events": len(events), "tlc_states": obs_states, "breaches_total": len(viol), "other_property_tags_seen": others},
             "strict_conformance": {"traces": len(conf), "by_status": status,
@@ -454,6 +463,14 @@ def run_check(pid, tier, replay=None):
 
 def run_replay(pid, vh, scratch, path):
     obj = json.load(open(path))
+    if obj.get("kind") == "wrap":
+        from . import wrapcheck
+        res, crashes = wrapcheck.run_cases(vh, scratch, [obj["case"]], workers=1)
+        bad = crashes or [m for r in res for m in (r.get("mismatches") or []) if m["kind"] == "ctx"]
+        print("replay:", "reproduced" if bad else "not reproduced")
+        if bad:
+            print("VIOLATION property=%s replay=%s  (reproduced)" % (pid, path))
+        return 1 if bad else 0
     sc = obj["scenario"]
     tries = 1 if sc.get("mode") == "plan" else 20
     for t in range(tries):
